@@ -190,6 +190,7 @@ func init() {
 		wireTables(w, r, "C01")
 		wireOrder(wc, r, "C01", "enc")
 		wireDecimalLiterals(w, r, "C01")
+		wireCppBeName(wc, r, "C01", []string{"enc"}, 1<<kBasic|1<<kLength|1<<kCheckSum)
 		wirePaddingSiblings(wc, r, "C01")
 		wireAssumptions(r)
 	})
@@ -205,6 +206,7 @@ func init() {
 		wireLEColumn(wc, r, "C02", "dec")
 		wireArgOrder(wc, r, "C02")
 		wirePairDedup(w, wc, r, "C02/decode-arm-per-key", "dec")
+		wireCppBeName(wc, r, "C02", []string{"dec"}, 1<<kBasic|1<<kLength|1<<kCheckSum)
 		wireOrder(wc, r, "C02", "dec")
 		wireAssumptions(r)
 	})
@@ -213,6 +215,7 @@ func init() {
 		wc := buildWire(w, r)
 		matrixEvidence(wc, r)
 		wireSiblingMatrix(wc, r)
+		wirePairDedup(w, wc, r, "C03/dispatch-arm-per-key", "dec")
 		wirePaddingSiblings(wc, r, "C03")
 		wirePadSpellings(w, wc, r)
 		wireTables(w, r, "C03")
@@ -231,7 +234,7 @@ func init() {
 		wireAssumptions(r)
 	})
 	register("C06", "Checksum fields: every codec generator's encoder cell depends on byte order, the field's type and the algorithm name, every decoder cell on byte order and type; the field's raw type spelling is read only through GetType; the checksum emission sits inside the ordered per-field loop (so 'preceding bytes' are what earlier fields wrote). "+
-		"Algorithm results, buffer extent and the byte order of each individual emitted write are not decided.", func(w *World, r *Report) {
+		"Algorithm results, buffer extent and the byte order of each individual emitted write are not decided, except for the C++ emitters, whose big-endian accessor is the bare type name: every such site must have consulted LittleEndian.", func(w *World, r *Report) {
 		wc := buildWire(w, r)
 		var cs []cellResult
 		for _, l := range codecLangs {
@@ -245,6 +248,7 @@ func init() {
 		}
 		reportCells(r, "C06/checksum-sensitivity", cs)
 		r.floor("C06/checksum-sensitivity", 10)
+		wireCppBeName(wc, r, "C06", []string{"enc", "dec"}, 1<<kCheckSum)
 		wireRawType(w, r, "C06", "CheckSumFieldAttribute.Type")
 		wireOrder(wc, r, "C06", "enc")
 		wireAssumptions(r)
@@ -674,6 +678,44 @@ func wireBeColumn(wc *wireCtx, r *Report, prop string) {
 	}
 	if n == 0 {
 		r.note("no read of a Be accessor column found (the table may have been reshaped)")
+	}
+}
+
+// wireCppBeName: in the C++ emitters the big-endian accessor is spelled with the scalar type name itself (buf.write_u32) and the
+// little-endian one comes from the table's Le column. A site of a scalar cell that interpolates the bare type name, reads no table
+// column and is neither selected by nor merged with the byte-order test writes big-endian whatever the configuration says.
+func wireCppBeName(wc *wireCtx, r *Report, prop string, dirs []string, kinds uint8) {
+	rule := prop + "/cpp-accessor-follows-byte-order"
+	m := wc.m
+	for _, dir := range dirs {
+		for _, fn := range wc.anchors["cpp"][dir] {
+			cnt := 0
+			for _, s := range m.sitesOf(fn) {
+				st, f := m.stateAt(fn, s.instr.Block())
+				if f == nil || st.empty() || st.K&kinds == 0 || st.K&^(1<<kBasic|1<<kLength|1<<kCheckSum) != 0 && st.isTop() {
+					continue
+				}
+				if st.K&^(1<<kBasic|1<<kLength|1<<kCheckSum) != 0 {
+					continue // not specific to a scalar cell
+				}
+				d, c := m.siteDeps(s, nil)
+				if d&sTY == 0 {
+					continue
+				}
+				cols := map[string]bool{}
+				tableCols(s.val, cols, map[ssa.Value]bool{}, 0)
+				if len(cols) > 0 {
+					continue
+				}
+				cnt++
+				key := fmt.Sprintf("%s type-named accessor #%d is chosen by the byte order", fnKey(fn), cnt)
+				if (d|c)&sLE != 0 {
+					r.pass(rule, key, m.w.instrPos(s.instr), "")
+				} else {
+					r.fail(rule, key, m.w.instrPos(s.instr), "the emitted call is named after the bare scalar type (the big-endian accessor) on a path where LittleEndian was never consulted: with LittleEndian = true this value is still written/read big-endian")
+				}
+			}
+		}
 	}
 }
 
